@@ -29,7 +29,9 @@ RULE = (
     "registered cursors with seek/next/prev/park kept across mutations, a dedicated stream of cursor-vs-mutation histories simulated while generating (delete the element just returned, insert/delete next to the anchor, a mutation right after a seek, first mutation of a fresh clone under an open cursor), "
     "a stream of `for k in tree` iterators stepped between mutations of the same tree (incl. the mixins' pop()/popitem()), trees made with the constructors' default arguments (t = 127) driven past their first root split, "
     "every public spelling of an operation chosen deterministically per op (d[k]=v / insert_element with and without the in_order argument, del / discard / delete_key / pop / popitem, seek with and without `before`, copy.copy / original=), "
-    "falsy keys and falsy dict values (0, None), plus a malformed stream (bad handles, clone "
+    "falsy keys and falsy dict values (0, None), keys of type int / str / Name / bytes / tuple / float, Element subclasses whose truth value is False, clones made with a different `t=` argument, "
+    "an oracle-only stream (no model line): key comparisons that raise (a BaseException, a ValueError or a KeyError subclass) after n comparisons in the middle of an insertion or deletion, then continued use of the trees; "
+    "a tree combined with itself (s |= s, s &= s, s ^= s, s -= s, d.update(d), clear()); ==, !=, <=, >=, <, isdisjoint and the binary set operators against plain set/dict and across clones, plus a malformed stream (bad handles, clone "
     "of a mutable tree, delete_exact of foreign elements, use of closed cursors, mutation of frozen trees); a case is "
     "non-trivial if it performs at least one mutation and its key (parameters + op list) is new"
 )
@@ -47,6 +49,10 @@ ASSUMPTIONS = [
     "cursors that are not registered with their tree (no `with` block) and are used across a mutation are undefined "
     "behaviour by the library's documentation and are not exercised",
     "keys are natural numbers (any totally ordered key type behaves the same; the code uses only ==, <, >)",
+    "exceptions raised by a key's comparison methods in the middle of an operation are outside the property's text; the oracle-only stream "
+    "still demands that every other tree is unchanged, that the tree stays a B-tree with a non-empty internal root, and that an aborted "
+    "insertion changes neither contents nor size (an aborted deletion of a key held in an internal node may already have removed the "
+    "successor: counted as hostile.aborted-delete-lost-successor, not judged)",
 ]
 LEVEL = {
     "text": "Lean 4 theorems over an executable model of dns/btree.py (search_in_node with its fast path and binary search, "
